@@ -30,6 +30,57 @@ FN = ("fun c : (Z * option backend * Z * Z) => let '(opt, subr, outv, obs) := c 
 GRID = list(itertools.product([0, 1, 2], [None, "cffsubr", "compreffor"], [1, 2]))
 
 
+def variable_section(ctx):
+    """compileVariableCFF2 under optimizeCFF 0/1/2: the masters must be merged unspecialised whatever the level, so the
+    variable font draws the same at every location.  Masters in which a point lies exactly on a horizontal / vertical edge
+    in one master only (a run the specialiser would fold) are where a per-master optimisation shows."""
+    import ufo2ft
+    from fontTools.ttLib import TTFont
+    from fontTools.varLib import instancer
+    from harness import dsgen
+    rng = ctx.subrng("var-cff2")
+    for i in range(ctx.budget(3, 12)):
+        j = [rng.randint(5, 40) for _ in range(4)]
+        def master(k):
+            d = 60 * k
+            # A: the point (300, 0) sits on the bottom edge in master 0, below it in master 1
+            A = [(Fr(0), Fr(0), "line"), (Fr(300), Fr(0 - (j[0] if k else 0)), "line"), (Fr(600 + d), Fr(0), "line"),
+                 (Fr(600 + d), Fr(700), "line"), (Fr(0), Fr(700), "line")]
+            # C: one point on the bottom edge in master 0 only, another on the right edge in master 1 only
+            C = [(Fr(0), Fr(0), "line"), (Fr(300), Fr(0 if k == 0 else -j[1]), "line"), (Fr(600), Fr(0), "line"),
+                 (Fr(600 + (0 if k == 1 else j[2])), Fr(350), "line"), (Fr(600), Fr(700), "line"), (Fr(0), Fr(700), "line")]
+            gl = [{"name": "A", "unicodes": [0x41], "width": Fr(700 + d), "contours": [A], "components": [], "anchors": []},
+                  {"name": "C", "unicodes": [0x43], "width": Fr(700), "contours": [C], "components": [], "anchors": []}]
+            return {"glyphs": gl, "glyphOrder": ["A", "C"], "kerning": {("A", "C"): Fr(-20 - d)}, "groups": {}, "lib": {},
+                    "info": {"familyName": "Fam", "styleName": "M%d" % k, "unitsPerEm": 1000, "ascender": 800, "descender": -200}}
+        masters = [master(0), master(1)]
+        lib = ["ufoLib2", "defcon"][i % 2]
+        base_draw = None
+        for opt in (0, 1, 2):
+            case = {"function": "compileVariableCFF2", "optimizeCFF": opt, "lib": lib, "font": jsonable(masters[0]), "last_master": jsonable(masters[1])}
+            ctx.count(); ctx.klass("variable CFF2/opt%d" % opt); ctx.nontriv(("vcff2", i, opt, ctx.scale))
+            try:
+                ds, _ = dsgen.make_designspace(rng, masters, lib, instances=False)
+                vf = ufo2ft.compileVariableCFF2(ds, optimizeCFF=opt)
+                b = io.BytesIO(); vf.save(b)
+                draws = {}
+                for loc in (100, 300, 500, 900):
+                    inst = instancer.instantiateVariableFont(TTFont(io.BytesIO(b.getvalue())), {"wght": loc})
+                    gs = inst.getGlyphSet()
+                    draws[loc] = {n: [geom.cyc_canon(geom.merge_axis_lines(sg)) for sg in geom.recorded_to_segments(geom.drawn_segments(gs[n]))]
+                                  for n in ("A", "C")}
+                    draws[loc]["hmtx"] = dict(inst["hmtx"].metrics)
+            except Exception as e:
+                ctx.spec_failure(case, "compileVariableCFF2(optimizeCFF=%d) raised %s: %s\n%s" % (opt, type(e).__name__, e, traceback.format_exc()[-800:]))
+                continue
+            if base_draw is None:
+                base_draw = draws
+            elif draws != base_draw:
+                bad = next((loc, n) for loc in draws for n in draws[loc] if draws[loc][n] != base_draw[loc][n])
+                ctx.spec_failure(dict(case, location=bad[0], glyph=bad[1]), "variable CFF2 built with optimizeCFF=%d draws %r differently at wght=%s "
+                                 "than the optimizeCFF=0 build" % (opt, bad[1], bad[0]))
+
+
 def explore(ctx):
     import ufo2ft
     from fontTools.ttLib import TTFont
@@ -109,6 +160,7 @@ def explore(ctx):
                 ctx.spec_failure(case, "hmtx differs from the baseline build")
             if obs["layout"] != base["layout"]:
                 ctx.spec_failure(case, "layout table bytes differ from the baseline build")
+    variable_section(ctx)
     vals = ctx.coq_eval(IMPORTS, FN, cases, chunk=400, tag="Dec")
     for v, case in zip(vals, meta):
         if v is None:
